@@ -41,20 +41,21 @@ type Intent struct {
 }
 
 type Inv struct {
-	Idx      int
-	Kind     string // random | buffer
-	Persist  bool
-	Cand     []uint64           // buffer streams: the words this invocation was given
-	Exit     *rapid.VerifStream // recording streams: the recording when the invocation ended
-	Draws    []Draw
-	Trace    []string
-	Intents  []Intent
-	SkipWhy  string // non-empty when the program called Skip
-	Returned bool   // property function returned normally
-	Pending  string // label of a draw that did not return (invalid data / inner failure)
-	Custom   int    // number of Custom function calls
-	trimmed  bool
-	Left     int // buffer streams, when Log.wantLeft: words not consumed when the invocation ended
+	Idx          int
+	Kind         string // random | buffer
+	Persist      bool
+	Cand         []uint64           // buffer streams: the words this invocation was given
+	Exit         *rapid.VerifStream // recording streams: the recording when the invocation ended
+	Draws        []Draw
+	Trace        []string
+	Intents      []Intent
+	SkipWhy      string // non-empty when the program called Skip
+	Returned     bool   // property function returned normally
+	repeatCalled bool   // the program reached its T.Repeat call
+	Pending      string // label of a draw that did not return (invalid data / inner failure)
+	Custom       int    // number of Custom function calls
+	trimmed      bool
+	Left         int // buffer streams, when Log.wantLeft: words not consumed when the invocation ended
 }
 
 func (v *Inv) phase() string {
@@ -359,6 +360,7 @@ func kindPanic(k int) bool { return k <= fkLibAssert }
 
 // noDrawGen misuses Custom (its function draws nothing): rapid answers with a panic of its own, in every kind of run
 var noDrawGen = rapid.Custom(func(*rapid.T) int { return 0 })
+
 func kindNonFatal(k int) bool {
 	return k >= fkError
 }
@@ -830,6 +832,7 @@ func (x *X) repeat(s *Step) {
 		s.actsCache = acts
 	}
 run:
+	x.inv.repeatCalled = true
 	x.t.Repeat(acts)
 }
 
